@@ -161,6 +161,7 @@ func newWorld(p Program) (*world, error) {
 		res.GetModel(func(r res.ModelRequest) { touch(r); r.Model(map[string]int{"v": scratchRead(r.Group())}) }),
 		res.Call("do", func(r res.CallRequest) {
 			touch(r)
+			r.Timeout(time.Duration(1000+len(r.ResourceName())+len(r.CID())) * time.Millisecond)
 			r.ChangeEvent(map[string]interface{}{"n": len(r.ResourceName())})
 			r.OK(nil)
 		}),
@@ -174,6 +175,7 @@ func newWorld(p Program) (*world, error) {
 					return
 				}
 				touch(qr)
+				qr.Timeout(time.Duration(2000+len(qr.Query())) * time.Millisecond)
 				qr.NotFound()
 			})
 			r.OK(nil)
@@ -182,7 +184,28 @@ func newWorld(p Program) (*world, error) {
 		res.Call("do", func(r res.CallRequest) { touch(r); r.Event("ping", nil); r.OK(nil) }))
 	s.Handle("t.$tag.$id", res.Group("tg.${tag}"), res.GetModel(func(r res.ModelRequest) { touch(r); r.Model(map[string]int{"v": 1}) }),
 		res.Call("do", func(r res.CallRequest) { touch(r); r.OK(nil) }))
-	s.Handle("p.$id", res.Parallel(true), res.GetModel(func(r res.ModelRequest) { atomic.AddInt64(&w.cbs, 1); r.Model(map[string]int{"v": 1}) }))
+	s.Handle("p.$id", res.Parallel(true), res.GetModel(func(r res.ModelRequest) { atomic.AddInt64(&w.cbs, 1); r.Model(map[string]int{"v": 1}) }),
+		res.Call("do", func(r res.CallRequest) {
+			atomic.AddInt64(&w.cbs, 1)
+			r.Timeout(time.Duration(3000+len(r.ResourceName())) * time.Millisecond)
+			r.OK(nil)
+		}),
+		res.Call("query", func(r res.CallRequest) {
+			// a query event on a Parallel resource: its query requests are served concurrently
+			atomic.AddInt64(&w.cbs, 1)
+			r.QueryEvent(func(qr res.QueryRequest) {
+				if qr == nil {
+					return
+				}
+				atomic.AddInt64(&w.cbs, 1)
+				if len(qr.Query())%2 == 0 {
+					qr.NotFound()
+				} else {
+					qr.Model(map[string]string{"q": qr.Query()})
+				}
+			})
+			r.OK(nil)
+		}))
 	// store backed resources
 	w.mst = mockstore.NewStore()
 	s.Handle("ms.$id", res.Model, store.Handler{Store: w.mst, Transformer: store.IDTransformer("id", nil)})
@@ -273,6 +296,7 @@ func (w *world) exec(op Op, family map[string]bool, mu *sync.Mutex) {
 		note("query")
 		w.qsubj.Range(func(k, _ interface{}) bool {
 			conn.Deliver(k.(string), reply(), []byte(`{"query":"p=a"}`))
+			conn.Deliver(k.(string), reply(), []byte(`{"query":"p=ab"}`))
 			return op.N%2 == 0
 		})
 	case "with":
@@ -528,7 +552,7 @@ func runProgram(p Program) (reports []report, cbs int64, families int, err error
 	return newRaceReports(), atomic.LoadInt64(&w.cbs), len(fam), nil
 }
 
-var rids = []string{"svc.r.1", "svc.r.2", "svc.r.3", "svc.s.1", "svc.s.2", "svc.p.1", "svc.ms.1", "svc.bs.1", "svc.us.1", "svc.bq", "svc.nosuch.1", "svc.nosuch.2", "svc.r.1", "svc.r.2", "svc.t.a.1", "svc.t.b.1", "svc.t.a.2"}
+var rids = []string{"svc.r.1", "svc.r.2", "svc.r.3", "svc.s.1", "svc.s.2", "svc.p.1", "svc.ms.1", "svc.bs.1", "svc.us.1", "svc.bq", "svc.nosuch.1", "svc.nosuch.2", "svc.r.1", "svc.r.2", "svc.t.a.1", "svc.t.b.1", "svc.t.a.2", "svc.p.1", "svc.p.2"}
 
 func genProgram() *rapid.Generator[Program] {
 	return rapid.Custom(func(t *rapid.T) Program {
